@@ -305,7 +305,8 @@ def specs(tier):
     out = [dict(module="checks.c14", scenario="Intersect", params=dict(A=a, B=b)) for a, b in pairs]
     out += [dict(module="checks.c14", scenario="Intersect", params=dict(A=a, B=b, premove=True)) for a, b in pairs[:2 if tier == "quick" else len(pairs)]]
     out += [dict(module="checks.c14", scenario="Intersect", params=dict(A=a, B=b, scale=sc)) for a, b in pairs[1:3 if tier == "quick" else len(pairs)] for sc in (["1/2000"] if tier == "quick" else ["1/2000", "1/100", "5000"])]
-    for a, b in [("qa", "qb"), ("ca", "la")] + ([("qa", "ca"), ("ca", "qb")] if tier != "quick" else []):
+    # (the cubic pair produces degree-6 atoms: one z3 query occasionally overruns its soft timeout by minutes, so it is thorough-only)
+    for a, b in [("qa", "qb")] + ([("ca", "la"), ("qa", "ca"), ("ca", "qb")] if tier != "quick" else []):
         out.append(dict(module="checks.c14", scenario="FilterStage", params=dict(A=a, B=b), time_budget=60 if tier == "quick" else 900))
     # curves with quadratic pieces: concrete placements, completeness decided over all parameter pairs (checks/curvedops.py)
     from checks.curvedops import CONFIGS
